@@ -3,6 +3,7 @@
 //! note: narrow claim for C10 (restart from a stale manager): blocked monitor updates that the loaded monitor already contains are dropped and newer ones kept; the close update generated for a channel whose manager is older than its monitor takes the update id right after the monitor's latest; an HTLC the stale manager still holds is looked up in the monitor by its source. Further kernel statements of C10's mechanisms are under contract in other units and tagged C10 there: the manager-older-than-monitor test (u05c), re-registering RAA blockers on reload (u02b), what FundedChannel::write leaves out (u12b), forgetting the peer's uncommitted updates (u01j)
 //! trusted: R15 (deep slices): FundedChannel::on_startup_drop_completed_blocked_mon_updates_through (the retain closure body, log statement removed R3), ChannelManager::from_channel_manager_data (the expression of the close update's id; the test that matches a manager HTLC against the monitor's outbound HTLCs), reconcile_pending_htlcs_with_monitor (the body of the closure that decides which held forwards / intercepted HTLCs are purged), verbatim as functions; PendingUpdate / HTLCSource are skeletons; HTLCSource equality is structural
 //! trusted: R15/R18 (deep slices of the function-local macro handle_in_flight_updates!): the predicate of the `.filter` that counts completed in-flight updates (the statement that tracks the maximum id is dropped) and the `replay` predicate of the `.retain`; the pushes of the background events and the bookkeeping around them are dropped and not claimed
+//! trusted: R15 (deep slices): process_background_events: the match that acts on one background event (R5: the manager is a stub whose three callees record their arguments in a ghost log; `&self` written `&mut self`) and the empty / non-empty result; PersistenceNotifierGuard::optionally_notify: the match that combines the operation's and the background events' notification, verbatim; handle_post_event_actions: the statements of the ReleasePaymentComplete arm that advance the closed channel's update id, build the update and test whether start-up is finished (ChannelMonitorUpdate instantiated as the skeleton PostCloseUpdate, R5); BackgroundEvent and NotifyOption are extracted (PublicKey, ChannelId, OutPoint, ChannelMonitorUpdate skeletons)
 //! assume: nothing here decides the crash-point quantifier of C10 (every prefix of the sequence of durable writes): that is a whole-history statement outside function contracts; only the listed statements of the recovery path are decided
 use vstd::prelude::*;
 verus! {
@@ -86,6 +87,104 @@ pub struct HTLCPreviousHopData { pub outpoint: OutPoint, pub htlc_id: u64 }
 //@with
     let replay = update.update_id >= m_monitor.get_latest_update_id();
 //@end
+// ---- background events regenerated at start-up are acted on first, and acting on them makes the manager persist again ----------
+pub mod background {
+use vstd::prelude::*;
+#[derive(Clone, Copy)] pub struct PublicKey { pub id: u64 }
+#[derive(Clone, Copy)] pub struct ChannelId { pub id: u64 }
+#[derive(Clone, Copy)] pub struct OutPoint { pub txid: u64, pub index: u16 }
+pub struct ChannelMonitorUpdate { pub update_id: u64 }
+pub struct BlockingAction { pub id: u64 }
+//@extract lightning/src/ln/channelmanager.rs :: enum BackgroundEvent
+//@end
+//@extract lightning/src/ln/channelmanager.rs :: enum NotifyOption
+//@end
+pub enum Did {
+    AppliedPostCloseUpdate { counterparty_node_id: PublicKey, channel_id: ChannelId, funding_txo: OutPoint, update: ChannelMonitorUpdate },
+    MonitorUpdated { channel_id: ChannelId, highest_applied_update_id: Option<u64>, counterparty_node_id: PublicKey },
+    ReleasedHeldUpdates { counterparty_node_id: PublicKey, channel_id: ChannelId, completed_blocker: Option<BlockingAction> },
+}
+pub struct Manager { pub did: Ghost<Seq<Did>> }
+impl Manager {
+    #[verifier::external_body] pub fn apply_post_close_monitor_update(&mut self, counterparty_node_id: PublicKey, channel_id: ChannelId, funding_txo: OutPoint, update: ChannelMonitorUpdate)
+        ensures final(self).did@ == old(self).did@.push(Did::AppliedPostCloseUpdate { counterparty_node_id, channel_id, funding_txo, update }) { unimplemented!() }
+    #[verifier::external_body] pub fn channel_monitor_updated(&mut self, channel_id: &ChannelId, highest_applied_update_id: Option<u64>, counterparty_node_id: &PublicKey)
+        ensures final(self).did@ == old(self).did@.push(Did::MonitorUpdated { channel_id: *channel_id, highest_applied_update_id, counterparty_node_id: *counterparty_node_id }) { unimplemented!() }
+    #[verifier::external_body] pub fn handle_monitor_update_release(&mut self, counterparty_node_id: PublicKey, channel_id: ChannelId, completed_blocker: Option<BlockingAction>)
+        ensures final(self).did@ == old(self).did@.push(Did::ReleasedHeldUpdates { counterparty_node_id, channel_id, completed_blocker }) { unimplemented!() }
+//@extract lightning/src/ln/channelmanager.rs :: impl ChannelManager :: fn process_background_events
+//@slice R15
+    for event in background_events.drain(..) { match event { $arms:any } } NotifyOption::DoPersist
+//@with
+    fn act_on_background_event(&mut self, event: BackgroundEvent) { match event { $arms } }
+//@ensures P C10 each-background-event-regenerated-at-start-up-is-acted-on-with-exactly-the-channel-peer-and-update-it-names
+    final(self).did@ == old(self).did@.push(match event {
+        BackgroundEvent::MonitorUpdateRegeneratedOnStartup { counterparty_node_id, funding_txo, channel_id, update } => Did::AppliedPostCloseUpdate { counterparty_node_id, channel_id, funding_txo, update },
+        BackgroundEvent::MonitorUpdatesComplete { counterparty_node_id, channel_id, highest_update_id_completed } => Did::MonitorUpdated { channel_id, highest_applied_update_id: Some(highest_update_id_completed), counterparty_node_id },
+        BackgroundEvent::AttemptUnblockMonitorUpdates { counterparty_node_id, channel_id } => Did::ReleasedHeldUpdates { counterparty_node_id, channel_id, completed_blocker: None },
+    }),
+//@mutant completed_updates_reported_without_their_highest_id
+    Some(highest_update_id_completed),
+//@with
+    None,
+//@end
+}
+//@extract lightning/src/ln/channelmanager.rs :: impl ChannelManager :: fn process_background_events
+//@slice R15
+    if background_events.is_empty() { return $none:seq; } for event in background_events.drain(..) { $body:any } $some:seq }
+//@with
+    fn persist_after_background_events(background_events: &Vec<BackgroundEvent>) -> NotifyOption { if background_events.is_empty() { return $none; } $some }
+//@ret r
+//@ensures P C10 acting-on-any-background-event-makes-the-manager-persist-again
+    background_events@.len() > 0 ==> r is DoPersist,
+    background_events@.len() == 0 ==> r is SkipPersistNoEvents,
+//@end
+// an event the user has handled releases a monitor update for a closed channel: next id of that channel, held back for the background events while starting up
+pub struct SentHTLCId { pub id: u64 }
+pub enum ChannelMonitorUpdateStep { ReleasePaymentComplete { htlc: SentHTLCId }, Other }
+pub struct PostCloseUpdate { pub update_id: u64, pub channel_id: Option<ChannelId>, pub updates: Vec<ChannelMonitorUpdateStep> }
+pub struct AtomicFlag { pub v: bool }
+pub enum Ordering { Acquire, Release, Relaxed }
+impl AtomicFlag { #[verifier::external_body] pub fn load(&self, o: Ordering) -> (r: bool) ensures r == self.v { unimplemented!() } }
+pub struct StartUp { pub background_events_processed_since_startup: AtomicFlag }
+impl StartUp {
+//@extract lightning/src/ln/channelmanager.rs :: impl ChannelManager :: fn handle_post_event_actions
+//@slice R15
+    *update_id = update_id.saturating_add(1); let update = $u:seq; let during_startup = $d:seq; if during_startup {
+//@with
+    fn release_payment_complete_update(&self, update_id: &mut u64, channel_id: ChannelId, htlc_id: SentHTLCId) -> (PostCloseUpdate, bool) { *update_id = update_id.saturating_add(1); let update = $u; let during_startup = $d; (update, during_startup) }
+//@rw R5
+    let update = ChannelMonitorUpdate {
+//@with
+    let update = PostCloseUpdate {
+//@ret r
+//@ensures P C10 the-update-that-releases-a-completed-payment-takes-the-closed-channels-next-id-names-that-channel-and-htlc-and-is-queued-not-applied-while-start-up-is-unfinished
+    *final(update_id) == (if *old(update_id) == u64::MAX { u64::MAX } else { (*old(update_id) + 1) as u64 }),
+    r.0.update_id == *final(update_id), r.0.channel_id == Some(channel_id),
+    r.0.updates@ =~= seq![ChannelMonitorUpdateStep::ReleasePaymentComplete { htlc: htlc_id }],
+    r.1 == !self.background_events_processed_since_startup.v,
+//@mutant release_update_reuses_the_last_id
+    let update = ChannelMonitorUpdate { update_id: *update_id,
+//@with
+    let update = ChannelMonitorUpdate { update_id: *update_id - 1,
+//@end
+}
+//@extract lightning/src/ln/channelmanager.rs :: impl PersistenceNotifierGuard :: fn optionally_notify
+//@slice R15
+    let notify = persist_check(); match (notify, force_notify) { $arms:any }
+//@with
+    fn most_of_the_two_notifications(notify: NotifyOption, force_notify: NotifyOption) -> NotifyOption { match (notify, force_notify) { $arms } }
+//@ret r
+//@ensures P C10 a-persist-demanded-by-the-background-events-is-never-downgraded-by-the-operation-that-ran-them
+    (notify is DoPersist || force_notify is DoPersist) ==> r is DoPersist,
+    !(notify is DoPersist || force_notify is DoPersist) && (notify is SkipPersistHandleEvents || force_notify is SkipPersistHandleEvents) ==> r is SkipPersistHandleEvents,
+    (notify is SkipPersistNoEvents && force_notify is SkipPersistNoEvents) ==> r is SkipPersistNoEvents,
+//@mutant background_persist_dropped_when_the_operation_skips
+    (_, NotifyOption::DoPersist) => NotifyOption::DoPersist,
+//@with
+    (_, NotifyOption::DoPersist) => NotifyOption::SkipPersistHandleEvents,
+//@end
+}
 pub struct MonitorStub { pub latest: u64 }
 impl MonitorStub { #[verifier::external_body] pub fn get_latest_update_id(&self) -> (r: u64) ensures r == self.latest { unimplemented!() } }
 }
